@@ -402,28 +402,38 @@ def other_edge_is_error(F, br, P, pos):
     """Some successor of conditional branch `br` leads effect-free to a non-zero constant return, or the
     branch is part of an ||/&& chain of scalar-only conditions that does."""
     for s in br.raw["succ"]:
-        if leads_to_error(F, s, br.block.id, 0):
+        if leads_to_error(F, s, [br.block.id], 0):
             return True
     return False
 
 
-def leads_to_error(F, b, prev, depth):
-    if depth > 6:
+def leads_to_error(F, b, path, depth):
+    """path: the blocks walked so far (the return value may be a phi chain through an inlined helper's exits)."""
+    if depth > 10 or b in path[1:]:
         return False
     B = F.bmap[b]
     for I in B.insts[:-1]:
         if is_effect(F, I):
             return False
     T = B.insts[-1]
+    here = path + [b]
     if T.op == "ret":
-        v = ir.eval_on_path(F, T.ops[0], [prev, b]) if T.ops else None
+        v = ir.eval_on_path(F, T.ops[0], here) if T.ops else None
         return isinstance(v, int) and v != 0
     if T.op == "br" and not T.raw.get("cond"):
-        return leads_to_error(F, T.raw["succ"][0], b, depth + 1)
+        return leads_to_error(F, T.raw["succ"][0], here, depth + 1)
     if T.op == "br" and T.raw.get("cond"):
         nc = ir.norm_cond(F, T.ops[0])
         if nc and scalar_only(F, nc[0]):
-            return any(leads_to_error(F, s, b, depth + 1) for s in T.raw["succ"])
+            return any(leads_to_error(F, s, here, depth + 1) for s in T.raw["succ"])
+        # a branch on a value that is constant along this walk (the verdict of an inlined helper): follow it
+        v = ir.eval_on_path(F, T.ops[0], here)
+        if nc is not None:
+            val, pred, c = nc
+            r = ir.eval_on_path(F, val, here)
+            if isinstance(r, int) and isinstance(c, int) and pred in ("eq", "ne"):
+                holds = (r == c) == (pred == "eq")
+                return leads_to_error(F, T.raw["succ"][0] if holds else T.raw["succ"][1], here, depth + 1)
     return False
 
 
